@@ -3,6 +3,8 @@ package rules
 func init() { register("C12", c12) }
 
 func c12(c *Ctx) {
+	c.sectionWindow("R12.7")
+	c.recursionDepthPaired("R12.6")
 	c.eofTermination("R12.3", "rfc5322")
 	c.listWriterDiscipline()
 	c.boundedRecursion("R12.1", []string{"rfc5322", "rfc822", "imap", "rfcparser"}, []string{"rfc5322", "rfc822", "imap"}, 5)
